@@ -215,6 +215,7 @@ static Case gen_c01() {
     c.setl("dests", {});
     c.set("pool", coin(1, 3) ? 1 : 0);
     c.set("wenv", weighted({6, 2, 1, 1}));
+    c.set("guard", coin(1, 6) ? (int)pick(1, 65535) : 0);      // also with every input on read-only pages next to guard pages
     return c;
 }
 static Case gen_c02() {
@@ -369,6 +370,38 @@ static void sweep_xor_c05() {
     }
     stats().exhaustive = true;
     stats().extra["xor_tables"] = ref::N_XOR_SHAPES;
+}
+// payload sizes around powers of two from 64 KiB to 4 MiB (size-gated bulk paths), aligned and unaligned survivors
+static void sweep_large(const RunFn &run) {
+    int shard = (int)opts().shard, ns = (int)opts().nshards, counter = 0;
+    bool th = opts().tier == "thorough";
+    std::vector<Config> cfgs;
+    { Config g; g.backend = ref::B_XOR; g.k = 3; g.m = 3; g.hd = 3; g.ct = CT_CRC32; cfgs.push_back(g); }
+    { Config g; g.backend = ref::B_RS; g.k = 3; g.m = 2; g.hd = 2; g.ct = CT_NONE; cfgs.push_back(g); }
+    { Config g; g.backend = ref::B_XOR; g.k = 5; g.m = 5; g.hd = 4; g.ct = CT_NONE; cfgs.push_back(g); }
+    if (isa_available()) { Config g; g.backend = ref::B_ISA_C; g.k = 4; g.m = 2; g.hd = 2; g.w = 8; g.ct = CT_NONE; cfgs.push_back(g); }
+    for (auto &g : cfgs)
+        for (int p = 16; p <= (th ? 22 : 21); p++)
+            for (int dlt : {-4, 0, 4, 8, 12, 16}) {
+                if (!th && (p + dlt / 4) % 2 && dlt != 0 && dlt != 4) continue;
+                if ((counter++ % ns) != shard) continue;
+                int ws = ref::word_bytes(g);
+                size_t pay = ((size_t)1 << p) + dlt;
+                pay = pay / ws * ws;
+                Case c = base_case(g, pay * g.k - (counter % 2), 800000 + counter);
+                int n = g.n(), t = ref::tolerance(g);
+                std::vector<int> E = {counter % g.k};
+                if (t >= 2) E.push_back(g.k + counter % g.m);
+                present_from_erased(c, n, E);
+                std::vector<int> al(n - (int)E.size(), 0);
+                if (counter % 3 == 1) for (size_t i = 0; i < al.size(); i++) al[i] = (int)(1 + (counter + i * 5) % 15);
+                if (counter % 3 == 2) al[counter % al.size()] = 8;
+                c.setv("align", al);
+                c.set("force", counter & 1); c.set("decode", 1);
+                c.setv("dests", E);
+                sweep_case(c, run);
+            }
+    stats().extra["large_payload_log2_max"] = th ? 22 : 21;
 }
 // RS (and ISA): every (k,m) once with |E| = m, half data lost
 static void sweep_rs_boundary(const RunFn &run, int backend, bool parity_dests) {
@@ -827,6 +860,9 @@ int main(int argc, char **argv) {
     h.mode("c01_xor_sweep", [] { sweep_xor_within(run_c01, false); }, run_c01);
     h.mode("c01_rs_sweep", [] { sweep_rs_boundary(run_c01, ref::B_RS, false); }, run_c01);
     h.mode("c01_isa_sweep", [] { if (isa_available()) { sweep_rs_boundary(run_c01, ref::B_ISA_V, false); sweep_rs_boundary(run_c01, ref::B_ISA_C, false); } }, run_c01);
+    h.mode("c01_large", [] { sweep_large(run_c01); }, run_c01);
+    h.mode("c02_large", [] { sweep_large(run_c02); }, run_c02);
+    h.mode("c03_large", [] { sweep_large(run_c03); }, run_c03);
     h.mode("c02", [] { rc_property("C02 exact or error", gen_c02, run_c02); }, run_c02);
     h.mode("c02_subsets", [] { bool th = opts().tier == "thorough"; sweep_all_subsets(run_c02, 12, th ? 10 : 8); }, run_c02);
     h.mode("c02_band", [] { sweep_xor_band(run_c02, opts().tier == "thorough" ? 3 : 1); }, run_c02);
